@@ -371,7 +371,6 @@ fn rand_text(rng: &mut ChaCha8Rng, specials: &[String], maxlen: usize) -> String
     let pool: Vec<&str> = vec![
         "a", "b", "z", "A", "0", " ", " ", "\t", "\n", "\r\n", "\u{00A0}", "ä", "é", "e\u{0301}", "€", "字", "😀",
         "👨\u{200D}👩\u{200D}👧", "🇩🇪", "\u{200B}", "<", ">", "<p", "p>", "<<", "/", "|", "~", "\u{3000}", "ß", "x\u{0308}",
-        giant_cluster(),
     ];
     let n = rng.random_range(0..=maxlen);
     let mut s = String::new();
@@ -392,6 +391,11 @@ fn rand_text(rng: &mut ChaCha8Rng, specials: &[String], maxlen: usize) -> String
         } else {
             s.push_str(pool[rng.random_range(0..pool.len())]);
         }
+    }
+    // one text in twenty carries a cluster of 261 bytes (a length that does not fit into a byte)
+    if rng.random_bool(0.05) {
+        s.push_str(giant_cluster());
+        s.push_str(["", "a", " "][rng.random_range(0..3)]);
     }
     s
 }
